@@ -107,6 +107,8 @@ pub proof fn lemma_lift_lift(p: Seq<char>, q: Seq<char>, s: Scan)
 }
 pub open spec fn lit_start(t: Seq<char>, p0: int) -> int { if p0 < t.len() { p0 + 1 } else { p0 } }
 pub open spec fn lit_scan(t: Seq<char>, p0: int) -> Scan { scan(t, lit_start(t, p0)) }
+// an interpolated literal whose text has a `$` that starts a slot: its decoding is the slot contract's business (slots_ok), not this scan's
+pub open spec fn has_slot(t: Seq<char>, p0: int) -> bool { lit_scan(t, p0) matches Scan::Bad(e) && e is UnescapedDollar }
 // where the decoding unit in progress started, given the scanner state
 spec fn scan_inv(t: Seq<char>, start: int, pos: int, state: StrScanState, first_hex: Option<u8>, chars: Seq<char>) -> bool {
     match state {
@@ -177,10 +179,11 @@ SPEC = r"""
         (r matches Ok(Token::StrLiteral(s))) ==> !interpolate,
         (r matches Ok(Token::InterpStrLiteral(s, slots))) ==> interpolate,
         r is Ok ==> (r matches Ok(Token::StrLiteral(s)) || r matches Ok(Token::InterpStrLiteral(s, slots))), // [C15:a_string_literal_lexes_to_a_string_token]
-        (!interpolate && lit_scan(old(self).scanner.text(), old(self).scanner.pos()) is Closed)
-            ==> (r matches Ok(Token::StrLiteral(s)) && s@ == lit_scan(old(self).scanner.text(), old(self).scanner.pos())->Closed_0
+        (lit_scan(old(self).scanner.text(), old(self).scanner.pos()) is Closed)
+            ==> ((if interpolate { r matches Ok(Token::InterpStrLiteral(s, slots)) && slots@.len() == 0 && s@ == lit_scan(old(self).scanner.text(), old(self).scanner.pos())->Closed_0 }
+                  else { r matches Ok(Token::StrLiteral(s)) && s@ == lit_scan(old(self).scanner.text(), old(self).scanner.pos())->Closed_0 })
                  && final(self).scanner.pos() == lit_scan(old(self).scanner.text(), old(self).scanner.pos())->Closed_1 + 1), // [C09_C15:a_string_literal_denotes_exactly_its_characters_with_the_documented_escapes_decoded_and_ends_at_its_closing_quote]
-        (!interpolate && lit_scan(old(self).scanner.text(), old(self).scanner.pos()) is Bad)
+        (lit_scan(old(self).scanner.text(), old(self).scanner.pos()) is Bad && !(interpolate && has_slot(old(self).scanner.text(), old(self).scanner.pos())))
             ==> r == Err::<Token, LexError>(lit_scan(old(self).scanner.text(), old(self).scanner.pos())->Bad_0), // [C15_C18:an_invalid_escape_or_hex_digit_or_an_unescaped_dollar_is_a_reported_error_at_the_position_of_that_character]
         final(self).scanner.text() == old(self).scanner.text(),
         0 <= final(self).scanner.pos() <= old(self).scanner.text().len(), // [C03:the_scanner_never_moves_past_the_end_of_the_input]
@@ -231,7 +234,8 @@ def build(read):
                     && (forall|j: int| cur_interpolation_start + 1 < j <= chars@.len() ==> #[trigger] depth(chars@, cur_interpolation_start + 1, j) > 0)
                     && (cur_interpolation_start + 1 < chars@.len() ==> chars@[cur_interpolation_start + 1] == '{'),
                 !interpolate ==> interpolation_slots@.len() == 0,
-                !interpolate ==> scan_inv(self.scanner.text(), lit_start(old(self).scanner.text(), old(self).scanner.pos()), self.scanner.pos(), state, first_hex_char, chars@), // [C09_C15:the_text_decoded_so_far_is_the_decoding_of_the_source_read_so_far]
+                (interpolate && has_slot(old(self).scanner.text(), old(self).scanner.pos())) || scan_inv(self.scanner.text(), lit_start(old(self).scanner.text(), old(self).scanner.pos()), self.scanner.pos(), state, first_hex_char, chars@), // [C09_C15:the_text_decoded_so_far_is_the_decoding_of_the_source_read_so_far]
+                !(interpolate && has_slot(old(self).scanner.text(), old(self).scanner.pos())) ==> interpolation_slots@.len() == 0,
                 !(state is Interpolate) ==> interpolation_brace_count == 0,
             decreases self.scanner.text().len() - self.scanner.pos(), // [C03:scanning_a_string_literal_terminates_every_iteration_consumes_a_character]"""}}
     loops[1]["body_start"] = "let ghost slots0 = interpolation_slots@;"
@@ -285,6 +289,7 @@ def replays(failed):
     yield ("\\r is CR and \\n is LF", 'print("a' + bs + 'rb" == "a' + bs + 'x0db")\nprint("a' + bs + 'nb" == "a' + bs + 'x0ab")\nprint("' + bs + 'r" == "' + bs + 'n")\n',
            exp("true\ntrue\nfalse\n"))
     yield ("hex escapes are base 16", 'print("' + bs + 'x4a" == "J")\n', exp("true\n"))
+    yield ("escapes in an interpolated literal without slots are decoded the same way", 'print($"a' + bs + 'rb' + bs + 'x4A' + bs + '$" == "a' + bs + 'x0dbJ' + bs + '$")\n', exp("true\n"))
     yield ("hex digits may be upper case", 'print("' + bs + 'x4A' + bs + 'x7E" == "J~")\n', exp("true\n"))
     yield ("an unknown escape is an error at that character", 'print("' + bs + 't")\n', exp(err=":1:9: 't' is not a valid escape character"))
     yield ("an invalid hex digit is an error at that character", 'print("' + bs + 'x4g")\n', exp(err=":1:11: 'g' is not a valid hex character"))
